@@ -106,7 +106,10 @@ def run_units(ctx, n):
     rng = ctx.rng
     for _ in range(n):
         salt = rng.choice(["", "s1", "ramp"])
-        vectors = [choicelib.weight_vector(rng, rng.choice(["int-small", "two", "mixed"])) for _ in range(5)]
+        vectors = [choicelib.weight_vector(rng, rng.choice(["int-small", "two", "mixed", "equal"])) for _ in range(5)]
+        n0 = rng.choice([2, 3, 4])
+        vectors.append(["1"] * n0)          # an even split next to uneven ones
+        vectors.append(["2"] + ["3"] * (n0 - 1))
         evs = []
         for ws in vectors:
             groups = ", ".join('"g%d" weighted %s' % (i, w) for i, w in enumerate(ws))
